@@ -11,7 +11,7 @@ import scipy.sparse as sp
 from toqito.perms import permutation_operator, permute_systems, swap, swap_operator
 
 from .. import gen
-from ..exact import present
+from ..exact import present, strict_fp_call
 
 RULE = ("configurations (input form, n, local dims, perm, flags, dtype) drawn by the seeded generator or enumerated "
         "(thorough); inputs are arange-labelled so one case settles the whole gather map; non-trivial = perm is not the "
@@ -262,9 +262,51 @@ def corpus(ctx):
     check_permop(ctx, [2, 3, 2], [1, 2, 0], False, True)
 
 
+def strict_fp_stream(ctx):
+    """the four functions under NumPy's floating-point error state 'raise' (harness/exact.py StrictFP): a relabelling moves entries and may not
+    evaluate anything that signals; zero, rank-one and labelled inputs, subsystems of dimension 1, sparse output forms.  Same outcome as
+    in the default state, entry for entry."""
+    def same(a, b):
+        if a[0] != b[0]:
+            return False
+        if a[0] != "ok":
+            return True
+        x, y = a[1], b[1]
+        x = x.toarray() if sp.issparse(x) else np.asarray(x)
+        y = y.toarray() if sp.issparse(y) else np.asarray(y)
+        return x.shape == y.shape and x.dtype == y.dtype and np.array_equal(x, y)
+    u, v = np.arange(1.0, 4.0), np.arange(1.0, 5.0) * (1 + 1j)
+    cases = [
+        ("permute_systems", permute_systems, (np.zeros((12, 12)), [1, 2, 0], [2, 3, 2]), {}),
+        ("permute_systems", permute_systems, (np.outer(np.kron(u, v[:2]), np.kron(u, v[:2]).conj()), [1, 0], [3, 2]), {}),
+        ("permute_systems", permute_systems, (np.arange(24.0), [2, 0, 1], [2, 3, 4]), {}),
+        ("permute_systems", permute_systems, (np.arange(36.0).reshape(6, 6), [1, 0, 2], [2, 1, 3]), {}),
+        ("permute_systems", permute_systems, (np.arange(48.0).reshape(6, 8), [1, 0], [[2, 3], [4, 2]], False, True), {}),
+        ("permute_systems", permute_systems, (np.arange(64.0).reshape(8, 8) * 1j, [2, 1, 0]), {}),
+        ("swap", swap, (np.zeros((6, 6)), [1, 2], [2, 3]), {}),
+        ("swap", swap, (np.arange(36.0).reshape(6, 6), [1, 2], [2, 3]), {}),
+        ("swap", swap, (np.arange(16.0).reshape(4, 4),), {}),
+        ("permutation_operator", permutation_operator, ([2, 1, 3], [2, 0, 1]), {}),
+        ("permutation_operator", permutation_operator, ([2, 3], [1, 0], True, True), {}),
+        ("permutation_operator", permutation_operator, (2, [1, 0]), {}),
+        ("swap_operator", swap_operator, (3,), {}),
+        ("swap_operator", swap_operator, ([2, 3], True), {}),
+        ("swap_operator", swap_operator, (1,), {}),
+    ]
+    for name, fn, a, k in cases:
+        plain = _call(fn, *[x.copy() if isinstance(x, np.ndarray) else x for x in a], **k)
+        st = strict_fp_call(fn, *[x.copy() if isinstance(x, np.ndarray) else x for x in a], **k)
+        strict = ("ok", st[1]) if st[0] == "ok" else (("reject", "x") if plain[0] == "reject" and "Invalid" in st[1] else ("raise", st[1]))
+        ctx.case({"fn": name, "stream": "strict-fp", "args": [np.asarray(x).shape if isinstance(x, np.ndarray) else x for x in a]}, True, f"strict-fp/{name}")
+        if not same(plain, strict):
+            ctx.violation(f"{name}: value depends on NumPy's floating-point error state (default state: {plain[0]}; invalid/divide/overflow set to 'raise': {strict[0]} {strict[1] if strict[0] != 'ok' else ''})",
+                          {"function": name, "args": {"fn": name, "stream": "strict-fp", "argv": [np.asarray(x).tolist() if isinstance(x, np.ndarray) and x.size <= 64 else str(np.asarray(x).shape) if isinstance(x, np.ndarray) else x for x in a]}, "check": "strict-fp"})
+
+
 def run(ctx, model_ok=True):
     rng = ctx.rng
     corpus(ctx)
+    strict_fp_stream(ctx)
     quick = ctx.tier == "quick"
     n_rand = 1500 if quick else 6000
     for it in range(n_rand):
